@@ -4,5 +4,5 @@ CONSTANTS
   Repaired = TRUE
 INIT Init
 NEXT Next
-INVARIANTS TranslateLayer CodeTable OnePerCodon ConcatLaw FrameLaw FrameShape NameDomain256
+INVARIANTS TranslateLayer CodeTable OnePerCodon ConcatLaw FrameLaw FrameShape NameDomain
 CHECK_DEADLOCK FALSE
